@@ -81,8 +81,9 @@ Definition T_res {A} (f : A -> T) (r : res A) : T := match r with Ok a => T_ok (
 
 Definition id_leb (a b : obj) : bool := bleb (object_id a) (object_id b).
 
-(* canonical numeric key for key-only comparisons: integral values within 2^53 as integers *)
-Definition canon_key (v : value) : T :=
+(* canonical form of a sort key, so that compare-equal keys render identically: integral numbers
+   within 2^53 as integers whatever their Go kind, times without their zone offset; recursively *)
+Fixpoint canon_key (v : value) {struct v} : T :=
   match v with
   | VInt z | VUint z => if (Z.abs z <=? two53) then TL [TZ 1; TZ z] else T_of_value v
   | VFloat b =>
@@ -91,6 +92,10 @@ Definition canon_key (v : value) : T :=
         let d := fden b in
         if (d mod scale1074 =? 0) && (Z.abs (d / scale1074) <=? two53) then TL [TZ 1; TZ (d / scale1074)]
         else T_of_value v
+  | VTime s n _ => TL [TZ 6; TZ s; TZ n]
+  | VArr l => TL [TZ 7; TL (map canon_key l)]
+  | VObj o => TL [TZ 8; TL ((fix go (o : list (bytes * value)) : list T :=
+                               match o with [] => [] | (k, x) :: t => TL [TB k; canon_key x] :: go t end) o)]
   | _ => T_of_value v
   end.
 
@@ -98,18 +103,16 @@ Definition key_tuple (sort : list (bytes * Z)) (d : obj) : T :=
   TL (map (fun o => if doc_has (fst o) d then TL [TZ 1; canon_key (doc_get (fst o) d)] else TL [TZ 0]) sort).
 
 (* how a result list is rendered:
-   mode 0, no sort: documents ordered by _id
-   mode 0, sort   : documents in result order, ties broken by _id
-   mode 1         : key tuples only, in result order
-   mode 2         : documents exactly in result order *)
+   no sort, mode 2 : documents exactly in result order
+   no sort, else   : documents ordered by _id (the result as a set)
+   sort, mode 1    : [key tuples in result order; number of documents]
+   sort, else      : [key tuples in result order; documents ordered by _id] *)
 Definition T_of_docs (sort : list (bytes * Z)) (mode : Z) (l : list obj) : T :=
-  if mode =? 1 then TL (map (key_tuple sort) l)
-  else if mode =? 2 then TL (map T_of_doc l)
-  else
-    match sort with
-    | [] => TL (map T_of_doc (msort id_leb l))
-    | _ => TL (map T_of_doc (msort (docs_leb (sort ++ [(id_field, 1)])) l))
-    end.
+  match sort with
+  | [] => if mode =? 2 then TL (map T_of_doc l) else TL (map T_of_doc (msort id_leb l))
+  | _ => TL [TL (map (key_tuple sort) l);
+             if mode =? 1 then TZ (Z.of_nat (length l)) else TL (map T_of_doc (msort id_leb l))]
+  end.
 
 Definition T_of_opt_doc (o : option obj) : T :=
   match o with Some d => TL [T_of_doc d] | None => TL [] end.
